@@ -24,17 +24,24 @@ import Golib.Proof.C01Hist
 import Golib.Proof.C01Progress
 import Golib.Proof.C01U32Run
 import Golib.Proof.C01U32Lin
+import Golib.Proof.C01Wait
+import Golib.Proof.C01Heap
 
 namespace Golib.C01
 
-/-- The model's access order is the source order (regenerated facts, see Proof/C01Facts). -/
+/-- The model's access order is the source order; the waiting forms `PushWait`/`PopWait` have
+the control shape `waitCall` mirrors (attempt tested before the deadline) and `Init`
+unconditionally allocates its slot array (regenerated facts, see Proof/C01Facts). -/
 theorem c01_source_order :
     soloSrc cfg32x2 (init cfg32x2 [[.push 5]]) 8 = Gen.C01.pushOps ∧
     soloSrc cfg32x2 oneElem 9 = Gen.C01.popOps ∧
     soloSrc cfg32x2 (init cfg32x2 [[.len]]) 4 = Gen.C01.lenOps ∧
     soloSrc cfg32x2 (init cfg32x2 [[.isEmpty]]) 4 = Gen.C01.isEmptyOps ∧
-    soloSrc cfg32x2 (init cfg32x2 [[.isFull]]) 4 = Gen.C01.isFullOps :=
-  ⟨facts_push, facts_pop, facts_len, facts_isEmpty, facts_isFull⟩
+    soloSrc cfg32x2 (init cfg32x2 [[.isFull]]) 4 = Gen.C01.isFullOps ∧
+    (Gen.C01.pushWaitShape = waitShape ∧ Gen.C01.popWaitShape = waitShape) ∧
+    Gen.C01.initValues = initValuesShape :=
+  ⟨facts_push, facts_pop, facts_len, facts_isEmpty, facts_isFull, facts_wait_shape,
+   facts_init_allocates⟩
 
 /-- `c01_inv`: in every reachable state every slot is in exactly one of the phases
 free / being written / stored / being read for one position of its residue class, with
@@ -342,6 +349,85 @@ example :
     ((run c s [1, 2, 1, 2, 2, 1, 2, 2]).2.filterMap (·.ret) = [.push false, .push true]) ∧
     (∀ th ∈ (run c s [1, 2, 1, 2, 2, 1, 2, 2]).1.threads, atStart th.pc = true) ∧
     ((run c s [3, 3, 3, 3, 3, 3]).2.filterMap (·.ret) = [.pop 5 true]) := by decide
+
+/-- `c01_timed_wait` (WAVE4 class 5).  `PushWait` / `PopWait` in all three forms
+(`maxWait < 0`: Gosched loop; `= 0`: one attempt; `> 0`: one attempt, then one attempt per
+tick of the ticker, the deadline test coming AFTER the attempt's result), with the outcome
+of every attempt and the deadline flag of every tick as environment input
+(Model/C01Wait.lean): the call consumes a prefix of `n` attempts; every attempt but the
+last one failed; if the call returns `some v` (true) the last attempt returned `v` — a
+success on the deadline tick is not dropped —; if it returns `none` (false, or still waiting)
+EVERY attempt it made returned false.  With `c01_linearizable` clause 3 (`RetOk`: a
+`Push`/`Pop` that returns false did not linearize) a waiting call that returns false
+performed no successful CAS: it stored / consumed nothing; one that returns true performed
+exactly one, in its last attempt. -/
+theorem c01_timed_wait {α : Type} (maxWait : Int) (env : List (Option α × Bool)) :
+    let outs := env.map (·.1)
+    let r := (waitCall maxWait env).1
+    let n := (waitCall maxWait env).2
+    n ≤ outs.length ∧
+    (∀ k, k + 1 < n → outs[k]? = some none) ∧
+    (∀ v, r = some v → 0 < n ∧ outs[n - 1]? = some (some v)) ∧
+    (r = none → ∀ k, k < n → outs[k]? = some none) := by
+  intro outs r n
+  obtain ⟨h1, h2, h3⟩ := waitCall_last maxWait env
+  refine ⟨h1, h2, ?_, ?_⟩
+  · intro v hv
+    have : (waitCall maxWait env).1 = some v := hv
+    rw [this] at h3
+    exact h3
+  · intro hn
+    have : (waitCall maxWait env).1 = none := hn
+    rw [this] at h3
+    exact h3
+
+/-- Non-vacuity of `c01_timed_wait`: `PopWait(15ms)`, the ring stays empty on the first
+tick, the element arrives before the second tick on which the deadline is also reached —
+the value is returned (the seeded loop `switch {case deadline: return false; case ok: …}`
+would drop it); and a wait whose deadline tick finds nothing makes no further attempt. -/
+example :
+    waitCall (15 : Int) [(none, false), (none, false), (some (7 : Int), true)] = (some 7, 3) ∧
+    waitCall (15 : Int) [(none, false), (none, true), (some (7 : Int), false)] = (none, 2) ∧
+    waitCall (0 : Int) [(none, false), (some (7 : Int), false)] = (none, 1) ∧
+    waitCall (-1 : Int) [(none, true), (none, true), (some (7 : Int), true)] = (some 7, 3) := by decide
+
+/-- `c01_reinit_independent` (WAVE4 class 4).  SyncRing VALUES with their slot arrays as
+heap objects with identity (Model/C01Heap.lean: a struct copy shares the array, `Init`
+allocates).  In every well-formed world:
+ 1. `x.Init(cap)` makes `x` a fresh empty ring on a NEW array; every other ring value —
+    copies of `x` taken before, the value `x` was copied from — keeps its fields and its
+    array content, and none of them refers to the new array;
+ 2. a call on `x` changes nothing of any ring value that refers to a different array, and
+    (by definition of `World.call`) its result and `x`'s new state are a function of `x`'s
+    own fields and array only: each ring is the machine of `c01_linearizable` on its own
+    state;
+ 3. a struct copy has the same view as its source (sharing is visible in the model). -/
+theorem c01_reinit_independent (M : Nat) (w : World) (h : w.WF) (x : Nat) :
+    (∀ cap, x < w.vars.length →
+      (w.init x cap).WF ∧
+      (w.init x cap).view x =
+        some ({ head := 0, tail := 0, cap := cap, arr := w.heap.length }, freshSlots cap) ∧
+      ∀ y r, y ≠ x → w.vars[y]? = some r →
+        (w.init x cap).vars[y]? = some r ∧ (w.init x cap).view y = w.view y ∧ r.arr ≠ w.heap.length) ∧
+    (∀ call, (w.call M x call).1.WF ∧
+      ∀ y r rx, y ≠ x → w.vars[y]? = some r → w.vars[x]? = some rx → r.arr ≠ rx.arr →
+        (w.call M x call).1.vars[y]? = some r ∧ (w.call M x call).1.view y = w.view y) ∧
+    (∀ y r, w.vars[x]? = some r → y < w.vars.length →
+      (w.copy x y).view y = w.view x ∧ (w.copy x y).heap = w.heap) :=
+  ⟨fun cap hx => init_fresh h hx cap, fun call => call_frame M h x call,
+   fun _ _ hx hy => copy_view hx hy⟩
+
+/-- Non-vacuity of `c01_reinit_independent` (the "swap the queue out and drain it" history):
+ring 0 of capacity 4 holds 1 2; `backlog := live` (ring 1); `live.Init(2)`; new traffic on
+the fresh ring and draining the backlog do not interfere. -/
+example :
+    let w0 : World := (World.mk [] [⟨0, 0, 0, 0⟩, ⟨0, 0, 0, 0⟩]).init 0 4
+    let w1 := ((w0.call (2 ^ 32) 0 (.push 1)).1.call (2 ^ 32) 0 (.push 2)).1
+    let w2 := (w1.copy 0 1).init 0 2
+    let w3 := (w2.call (2 ^ 32) 0 (.push 100)).1
+    (w3.call (2 ^ 32) 1 .pop).2 = some (.pop 1 true) ∧
+    ((w3.call (2 ^ 32) 1 .pop).1.call (2 ^ 32) 0 .pop).2 = some (.pop 100 true) ∧
+    (w2.call (2 ^ 32) 0 .pop).2 = some (.pop 0 false) := by decide +kernel
 
 /-- `c01_u32_arith` (the former `c01_u32_refines_partial`, kept; the arithmetic core of the
 refinement): as long as the two compared counter / sequence values are less than `2^32`
